@@ -43,10 +43,10 @@ TOLERANCES = {
     "ascii_fixture_newlines": "CRLF in a shipped ASCII fixture is compared as LF (text-mode newline translation)",
 }
 FLOORS = {
-    "quick": {"record.bin.framing": 1500, "record.bin.readback": 1500, "record.ascii.readback": 1000, "fixture.rewrite": 25,
-              "gen.container": 400, "gen.image-reproduced": 300, "gen.bin.roundtrip": 300, "gen.ascii.roundtrip": 250, "census": 200},
-    "thorough": {"record.bin.framing": 40000, "record.bin.readback": 40000, "record.ascii.readback": 25000, "fixture.rewrite": 25,
-                 "gen.container": 12000, "gen.image-reproduced": 9000, "gen.bin.roundtrip": 9000, "gen.ascii.roundtrip": 8000, "census": 6000},
+    "quick": {"record.bin.framing": 1800, "record.bin.readback": 1800, "record.ascii.readback": 1200, "fixture.rewrite": 28, "fixture.bin.roundtrip": 28,
+              "fixture.ascii.roundtrip": 28, "gen.container": 400, "gen.image-reproduced": 380, "gen.bin.roundtrip": 400, "gen.ascii.roundtrip": 400, "census": 350},
+    "thorough": {"record.bin.framing": 45000, "record.bin.readback": 45000, "record.ascii.readback": 35000, "fixture.rewrite": 28, "fixture.bin.roundtrip": 28,
+                 "fixture.ascii.roundtrip": 28, "gen.container": 16000, "gen.image-reproduced": 15000, "gen.bin.roundtrip": 16000, "gen.ascii.roundtrip": 16000, "census": 13000},
 }
 TIMEOUT = {"quick": 600, "thorough": 3600}
 ASSUMPTIONS = [
@@ -929,10 +929,13 @@ def census_isotxs(lib, which):
         nvec = md["ltrn"] + md["ltot"] + 1 + (2 if md["fisFlag"] > 0 else 0) + (1 if md["chiFlag"] == 1 else 0)
         nvec += sum(1 for k in ("nalph", "np", "n2n", "nd", "nt") if md[k] > 0) + max(md["strpd"], 0)
         out.append(4 * ng * nvec)
+        nsb = fm["subblockingControl"]
+        x = (ng - 1) // nsb + 1
         for n in range(nb):
             lord = int(md["ords"][n])
             if lord > 0:
-                out.append(4 * lord * sum(int(md["jband"][j, n]) for j in range(ng)))
+                for m in range(1, nsb + 1):  # one record per sub-block: groups JL..JU of the CCCC blocking rule
+                    out.append(4 * lord * sum(int(md["jband"][j, n]) for j in range((m - 1) * x, min(ng, m * x))))
     return out
 
 
@@ -1228,6 +1231,7 @@ class IsotxsFmt(Fmt):
                                                  ("mc2v3-AA.gamiso", "mc2v3-AB.gamiso", "AA.gamiso", "AB.gamiso", "combined-AA-AB.gamiso", "combined-and-lumped-AA-AB.gamiso")))
 
     def table(self, hostile):
+        h = hostile is True  # 'coin' cases are regular in every other respect
         def fis(g, n):
             if g.header["chiFlag"] == 0 and g.header["fileWideChiFlag"] != 1:
                 return 0
@@ -1255,13 +1259,18 @@ class IsotxsFmt(Fmt):
             jb = g.state["jb"][n]
             return g.rng.randint(max(1, jb - grp), min(max(jb, 1), ng - grp))
 
+        def coin(g):
+            # a sub-blocked, two-order layout the reader happens to accept (rows per sub-block x orders == groups); most others are refused
+            return g.state.setdefault("coin", hostile == "coin" or bool(hostile and g.rng.random() < 0.4))
+
         @each
         def ords(g, n):
-            return g.rng.choice([0, 1, 1] + ([2] if hostile else []))
+            return 2 if coin(g) else g.rng.choice([0, 1, 1] + ([2] if h else []))
         f01 = [0, 1]
-        return {"numGroups": R(1, 6), ("numGroups", 1): R(1, 4), "maxUpScatterGroups": R(0, 5), "maxDownScatterGroups": R(0, 5), "maxScatteringOrder": R(0, 3),
-                "fileWideChiFlag": [0, 1] + ([2] if hostile else []), "maxScatteringBlocks": R(0, 4), "subblockingControl": [1] + ([2] if hostile else []),
-                "chiFlag": [0, 1] + ([2] if hostile else []), "fisFlag": fis, "nalph": f01, "np": f01, "n2n": f01, "nd": f01, "nt": f01,
+        return {"numGroups": lambda g, n: 2 if coin(g) else g.rng.randint(1, 6), ("numGroups", 1): R(1, 4), "maxUpScatterGroups": R(0, 5), "maxDownScatterGroups": R(0, 5), "maxScatteringOrder": R(0, 3),
+                "fileWideChiFlag": [0, 1] + ([2] if h else []), "maxScatteringBlocks": lambda g, n: g.rng.randint(1 if coin(g) else 0, 4),
+                "subblockingControl": lambda g, n: 2 if coin(g) else g.rng.choice([1] + ([2] if h else [])),
+                "chiFlag": [0, 1] + ([2] if h else []), "fisFlag": fis, "nalph": f01, "np": f01, "n2n": f01, "nd": f01, "nt": f01,
                 "ltot": R(0, 3), "ltrn": R(0, 3), "strpd": R(0, 2), "scatFlag": scat, "ords": ords, "jband": jband, "jj": jj}
 
     def strings(self):
@@ -1483,7 +1492,11 @@ def _rd(path, mode="rb"):
 
 def ascii_failure(fmt, rec, where, what, w, nref):
     """An ASCII step failed although binary passed: name the mechanism from the container's values."""
+    from armi.nuclearDataIO.cccc import cccc
+
     wi, wd = wide_values(nref)
+    wi = [x for x in wi if single_ascii_fails(cccc, "int", x[1], 0)][:3]      # attribute only if that very value fails on its own
+    wd = [x for x in wd if single_ascii_fails(cccc, "double", x[1], 0)][:3]
     if wi:
         rec.violation("ascii/rwInt-10-digit-overflows-field", "%s %s: container holds the 10-digit integer %s=%d, which the 11-character ASCII integer field cannot hold; %s"
                       % (fmt.name, where, wi[0][0], wi[0][1], what), dict(w, where=where, wide=wi[:3]))
@@ -1671,7 +1684,9 @@ def do_generated(spec, rec, rng):
         fmt = fmts[names[ci % len(names)]]
         crng = random.Random("%s:%d" % (spec["rng"], ci))
         hostile = crng.random() < 0.15
-        w = {"format": fmt.name, "case": "%s:%d" % (spec["rng"], ci), "generated": True, "hostile_header": hostile}
+        if fmt.name in ("isotxs", "gamiso") and ci < 3 * len(names):
+            hostile = "coin"  # the first cases of every run use the accepted sub-blocked layout (see IsotxsFmt.table)
+        w = {"format": fmt.name, "case": "%s:%d" % (spec["rng"], ci), "generated": True, "hostile_header": bool(hostile)}
         if fmt.name == "fixsrc":
             gen_fixsrc(fmt, crng, rec, w, ci)
             continue
@@ -1692,6 +1707,15 @@ def do_generated(spec, rec, rng):
             continue
         rec.hit("gen.container")
         w["header"] = fmt.header(c0, g)
+        rec0 = rec
+        if fmt.name in ("isotxs", "gamiso"):
+            md = getattr(c0, fmt.name + "Metadata")
+            lords = [int(o) for n in c0.nuclides for o in getattr(n, fmt.name + "Metadata")["ords"]]
+            if md["subblockingControl"] > 1 or any(o > 1 for o in lords):
+                rec = Reroute(rec0, "isotxs/scatter-subblocks-or-orders-accepted-but-garbled",
+                              "%s with NSBLOK=%d, max LORD=%d was accepted by the reader (most such headers are refused) but is not read faithfully: "
+                              "_rw7DRecord builds a new matrix per sub-block (the last one wins) and stacks the rows of all Legendre orders"
+                              % (fmt.name.upper(), md["subblockingControl"], max(lords or [0])))
         image = g.bytes()
         n0 = norm(c0)
         # (1) the real reader on the synthetic file returns what the generative reader handed out
@@ -1721,6 +1745,7 @@ def do_generated(spec, rec, rng):
         # (3) fill every data cell, then the round trips
         refilled = fmt.refill(c1, crng)
         nrec = roundtrips(fmt, c1, rec, dict(w, refilled=refilled))
+        rec = rec0
         rec.case(["gen", fmt.name, sorted(w["header"].items())], nontrivial=fmt.nontrivial(nrec),
                  sample=dict(w, records=nrec, bytes=len(image)) if ci < len(names) * 1 and ci % len(names) == 0 and not hostile else None)
 
@@ -1768,6 +1793,22 @@ def gen_fixsrc(fmt, rng, rec, w, ci):
     except Exception as e:
         rec.crash("fixsrc/readBinary", e, w)
     rec.case(["gen", "fixsrc", shape], nontrivial=True, sample=dict(w, records=nrec) if ci == 0 else None)
+
+
+class Reroute:
+    """Recorder proxy: every verdict of one case is filed under one mechanism key (used when the header itself names the mechanism)."""
+
+    def __init__(self, rec, key, what):
+        self._rec, self._key, self._what = rec, key, what
+
+    def __getattr__(self, name):
+        return getattr(self._rec, name)
+
+    def violation(self, key, what, witness=None):
+        self._rec.violation(self._key, "%s [%s: %s]" % (self._what, key, str(what)[:300]), witness)
+
+    def crash(self, where, exc, witness=None):
+        self._rec.violation(self._key, "%s [crash at %s: %s %s]" % (self._what, where, type(exc).__name__, str(exc)[-200:]), witness)
 
 
 # ============================================================================ environment, plan, dispatch
